@@ -95,6 +95,33 @@ def eliminate_returns(stmts, target, close=True):
                 new.body = [ast.Pass()]
             out.append(new)
             return out
+        if isinstance(s, (ast.Try, ast.With)) and i == len(stmts) - 1 and \
+                _contains(s, ast.Return):
+            # tail position: after the statement nothing of this list runs
+            # anyway, so a return inside it is an assignment - no flag needed
+            # (not when the try has an else clause that a return in the body
+            # would skip, nor for returns in a finally clause)
+            new = copy.copy(s)
+            if isinstance(s, ast.With):
+                new.body = eliminate_returns(s.body, target, close)
+                out.append(new)
+                return out
+            if _has_return(s.finalbody) or (s.orelse and _has_return(s.body)):
+                raise _NotStructured()
+            inner_close = close and not s.orelse
+            new.body = eliminate_returns(s.body, target, inner_close) or \
+                [ast.Pass()]
+            hs = []
+            for h in s.handlers:
+                h2 = copy.copy(h)
+                h2.body = eliminate_returns(h.body, target, close) or \
+                    [ast.Pass()]
+                hs.append(h2)
+            new.handlers = hs
+            if s.orelse:
+                new.orelse = eliminate_returns(s.orelse, target, close)
+            out.append(new)
+            return out
         if _contains(s, ast.Return):
             raise _NotStructured()
         out.append(s)
@@ -950,4 +977,23 @@ def expand_new_helpers(model):
                     ex.is_new(ex._short(q)):
                 absorbed.add(q)
     model.absorbed = absorbed
+    # an absorbed helper is no longer part of the normal form: its statements
+    # live on in its callers, and package-wide scans (who may call X, handler
+    # inventories) must not see them a second time under another name
+    for q in absorbed:
+        fi = model.funcs.pop(q, None)
+        if fi is None:
+            continue
+        mi = model.modules.get(fi.module)
+        if fi.cls and fi.cls in model.classes:
+            ci = model.classes[fi.cls]
+            ci.methods.pop(fi.name, None)
+            if fi.node in ci.node.body:
+                ci.node.body.remove(fi.node)
+                if not ci.node.body:
+                    ci.node.body.append(ast.Pass())
+        elif mi is not None:
+            mi.functions.pop(fi.name, None)
+            if fi.node in mi.tree.body:
+                mi.tree.body.remove(fi.node)
     return ex.log
